@@ -196,6 +196,10 @@ func (aquahash *Aquahash) verifyHeaderWorker(chain consensus.ChainReader, header
 	if chain.GetHeader(headers[index].Hash(), headers[index].Number.Uint64()) != nil {
 		return nil // known block
 	}
+	if parent == nil {
+		// only a known genesis header may lack a parent
+		return consensus.ErrUnknownAncestor
+	}
 	return aquahash.verifyHeader(chain, headers[index], parent, grandparent, false, seals[index])
 }
 
